@@ -120,6 +120,18 @@ func run(c kvh.Case) (flags, pbt.Info, error) {
 			m.Clear()
 			box.Clear()
 			label("clear")
+		case "load":
+			// state reached through FromJSON is a history too: the document replaces
+			// the content, and everything below must keep holding from there
+			pairs := kvh.LoadPairs(c.Cmp, op.L)
+			if err := box.Load(pairs); err != nil {
+				return fail(i, op, "FromJSON(%s) failed: %v", kvh.LoadDoc(pairs, false), err)
+			}
+			m.Clear()
+			for _, p := range pairs {
+				m.Put(p[0], p[1])
+			}
+			label("load")
 		case "probe":
 			continue
 		default:
@@ -235,6 +247,16 @@ func runBidi(c kvh.Case) (flags, pbt.Info, error) {
 		case "clear":
 			m.Clear()
 			box.Clear()
+		case "load":
+			pairs := kvh.LoadPairs(c.Cmp, op.L)
+			if err := box.Load(pairs); err != nil {
+				return fail(i, op, "FromJSON(%s) failed: %v", kvh.LoadDoc(pairs, false), err)
+			}
+			m.Clear()
+			for _, p := range pairs {
+				m.Put(p[0], p[1])
+			}
+			label("load")
 		case "probe":
 			continue
 		}
@@ -289,7 +311,7 @@ func check(c kvh.Case) (pbt.Info, error) {
 }
 
 func params(kind string) kvh.GenParams {
-	p := kvh.GenParams{Kind: kind, MaxOps: 45, RunMax: 24}
+	p := kvh.GenParams{Kind: kind, MaxOps: 45, RunMax: 24, Loads: true}
 	switch kind {
 	case kvh.TreeMap, kvh.RBT, kvh.AVL, kvh.BTree:
 		p.Cmps = dom.AllCmps
